@@ -649,10 +649,46 @@ func (g *wgen) assemble() {
 		w.Files[setFile].Sets = append(w.Files[setFile].Sets, WSet{Name: setNames[k], Elems: es})
 		direct = append(direct, WElem{Kind: "set", Set: setNames[k]})
 	}
-	// drawn order of the direct elements
-	for i := 0; i < len(direct)-1; i++ {
-		j := i + rapid.IntRange(0, len(direct)-1-i).Draw(g.rt, "perm")
-		direct[i], direct[j] = direct[j], direct[i]
+	// drawn order of the direct elements (a binding stays right behind its provider)
+	type grp struct{ es []WElem }
+	var groups []grp
+	for _, e := range direct {
+		if e.Kind == "bind" && len(groups) > 0 {
+			groups[len(groups)-1].es = append(groups[len(groups)-1].es, e)
+			continue
+		}
+		groups = append(groups, grp{[]WElem{e}})
+	}
+	for i := 0; i < len(groups)-1; i++ {
+		j := i + rapid.IntRange(0, len(groups)-1-i).Draw(g.rt, "perm")
+		groups[i], groups[j] = groups[j], groups[i]
+	}
+	direct = direct[:0]
+	for _, gr := range groups {
+		direct = append(direct, gr.es...)
+	}
+	// inline wire.NewSet nesting, several levels deep: Build(NewSet(a, NewSet(b, NewSet(c))))
+	if len(direct) >= 2 && g.want("inline-sets-deep", "inlinedeep", 30) {
+		depth := rapid.IntRange(1, 3).Draw(g.rt, "inlinedepth")
+		var nest func(es []WElem, d int) WElem
+		nest = func(es []WElem, d int) WElem {
+			if d <= 0 || len(es) < 2 {
+				return WElem{Kind: "inline", Inline: es}
+			}
+			var cuts []int
+			for c := 1; c < len(es); c++ {
+				if es[c].Kind != "bind" {
+					cuts = append(cuts, c)
+				}
+			}
+			if len(cuts) == 0 {
+				return WElem{Kind: "inline", Inline: es}
+			}
+			cut := cuts[rapid.IntRange(0, len(cuts)-1).Draw(g.rt, "inlinecut")]
+			head := append([]WElem{}, es[:cut]...)
+			return WElem{Kind: "inline", Inline: append(head, nest(append([]WElem{}, es[cut:]...), d-1))}
+		}
+		direct = []WElem{nest(append([]WElem{}, direct...), depth)}
 	}
 	inj.Elems = direct
 	w.Files[0].Injectors = append(w.Files[0].Injectors, inj)
